@@ -93,6 +93,13 @@ def run_chunks(c):
     return dict(batches=got)
 
 
+def run_star(c):
+    a, b = c['a'], c['b']
+    if c['star']:
+        return dict(out=jl(bp.starmapstar((lambda x, y: a * x + b * y, [tuple(p) for p in c['c']]))))
+    return dict(out=jl(bp.mapstar((lambda x: a * x + b, tuple(c['c'])))))
+
+
 # ------------------------------------------------------------------- async
 def run_async(c):
     stub = Stub(c['p'])
@@ -310,9 +317,199 @@ def run_apply(c):
                 accepted=bool(res._accepted), incache=job in cache)
 
 
-RUNNERS = dict(chunks=run_chunks, **{'async': run_async}, map=run_map, imap=run_imap,
+# ------------------------------------------------------- real pools (thorough)
+def sq(x):
+    """completion order perturbed by input-dependent sleeps"""
+    import time
+    time.sleep(((x * 7919) % 5) * 0.002)
+    return x * x + 1
+
+
+def sq_pure(x):
+    return x * x + 1
+
+
+def add3(a, b):
+    import time
+    time.sleep(((a + b) % 3) * 0.002)
+    return a * 100 + b
+
+
+def picky(x):
+    import time
+    time.sleep(((x * 31) % 4) * 0.002)
+    if x % 10 == 7:
+        raise ValueError('bad input', x)
+    return x + 1
+
+
+def run_pool(cfg):
+    import os
+    import random
+    import signal
+    import threading
+    import billiard
+    from billiard.einfo import RemoteTraceback
+    wd = threading.Timer(600, lambda: os._exit(3))      # a hang must not look like a pass
+    wd.daemon = True
+    wd.start()
+    rng = random.Random(cfg['seed'] * 104729 + 2)
+    runs = 0
+    bad = []
+    obs = set()
+    summary = {}
+
+    def note(kind):
+        summary[kind] = summary.get(kind, 0) + 1
+
+    def flag(sig, what, case):
+        if len(bad) < 20:
+            bad.append(dict(signature=sig, what=what, case=case))
+
+    for psize in (1, 2, 3, 5):
+        pool = billiard.Pool(psize)
+        pids = [p.pid for p in pool._pool]
+        for trial in range(cfg.get('trials', 14)):
+            n = rng.choice([0, 1, 2, 3, 5, 8, 13, 21, 40])
+            cs = rng.choice([None, None, 1, 2, 3, max(n, 1), n + 1])
+            xs = [rng.randint(0, 60) for _ in range(n)]
+            case = dict(pool=psize, n=n, chunksize=cs, xs=xs)
+            # map
+            runs += 1
+            note('map')
+            try:
+                got = pool.map_async(sq, xs, cs).get(timeout=60)
+                if got != list(map(sq_pure, xs)):
+                    flag('C02:pool-map-differs-from-sequential', 'Pool(%d).map(sq, %s, chunksize=%s) -> %s' % (psize, xs, cs, got), case)
+            except Exception as exc:
+                flag('C02:pool-map-raised', 'map raised %r' % (exc,), case)
+            # starmap
+            runs += 1
+            note('starmap')
+            pairs = [(x, (x * 3) % 7) for x in xs]
+            try:
+                got = pool.starmap_async(add3, pairs, cs).get(timeout=60)
+                if got != [a * 100 + b for a, b in pairs]:
+                    flag('C02:pool-starmap-differs-from-sequential', 'starmap(%s, chunksize=%s) -> %s' % (pairs, cs, got), case)
+            except Exception as exc:
+                flag('C02:pool-starmap-raised', 'starmap raised %r' % (exc,), case)
+            # imap / imap_unordered, chunksize 1 and > 1 (no failing input here)
+            for ics in (1, rng.choice([2, 3, 4])):
+                runs += 2
+                note('imap cs=%s' % ('1' if ics == 1 else '>1'))
+                try:
+                    got = list(pool.imap(sq, xs, chunksize=ics))
+                    if got != list(map(sq_pure, xs)):
+                        flag('C02:pool-imap-differs-from-sequential', 'imap(%s, chunksize=%d) -> %s' % (xs, ics, got), case)
+                    got = list(pool.imap_unordered(sq, xs, chunksize=ics))
+                    if sorted(got) != sorted(map(sq_pure, xs)):
+                        flag('C02:pool-imap-unordered-multiset-differs', 'imap_unordered(%s, chunksize=%d) -> %s' % (xs, ics, got), case)
+                except Exception as exc:
+                    flag('C02:pool-imap-raised', 'imap raised %r' % (exc,), case)
+            # apply
+            runs += 1
+            note('apply')
+            x = rng.randint(0, 60)
+            try:
+                if pool.apply_async(sq, (x,)).get(timeout=60) != sq_pure(x):
+                    flag('C02:pool-apply-differs', 'apply(sq, (%d,))' % x, case)
+            except Exception as exc:
+                flag('C02:pool-apply-raised', 'apply raised %r' % (exc,), case)
+            # exception path
+            ys = [rng.randint(0, 39) for _ in range(rng.randint(1, 15))]
+            failing = [y for y in ys if y % 10 == 7]
+            ecase = dict(pool=psize, ys=ys, chunksize=cs)
+            runs += 1
+            note('map with failing inputs' if failing else 'map (picky, no failing input)')
+            try:
+                got = pool.map_async(picky, ys, cs).get(timeout=60)
+                if failing or got != [y + 1 for y in ys]:
+                    flag('C02:pool-map-swallowed-exception', 'map(picky, %s) returned %s although %s raise' % (ys, got, failing), ecase)
+            except ValueError as exc:
+                obs.add('map().get() re-raises the worker exception as its own type (%s) with the original args and '
+                        '__cause__ of type %s' % (type(exc).__name__, type(exc.__cause__).__name__))
+                if not failing or exc.args[0] != 'bad input' or exc.args[1] not in failing \
+                        or not isinstance(exc.__cause__, RemoteTraceback):
+                    flag('C02:pool-map-foreign-exception', 'map(picky, %s) raised %r (cause %r); failing inputs %s'
+                         % (ys, exc, exc.__cause__, failing), ecase)
+            except Exception as exc:
+                flag('C02:pool-map-wrong-exception-type', 'map(picky, %s) raised %r' % (ys, exc), ecase)
+            runs += 1
+            note('apply with failing input')
+            try:
+                pool.apply_async(picky, (17,)).get(timeout=60)
+                flag('C02:pool-apply-swallowed-exception', 'apply(picky, (17,)) returned', ecase)
+            except ValueError as exc:
+                obs.add('apply().get() re-raises %s%r with __cause__ %s' % (type(exc).__name__, exc.args, type(exc.__cause__).__name__))
+                if exc.args != ('bad input', 17) or not isinstance(exc.__cause__, RemoteTraceback):
+                    flag('C02:pool-apply-wrong-exception', 'apply(picky, (17,)) raised %r cause %r' % (exc, exc.__cause__), ecase)
+            except Exception as exc:
+                flag('C02:pool-apply-wrong-exception-type', 'apply(picky, (17,)) raised %r' % (exc,), ecase)
+            # imap chunksize 1 with failing inputs: error at its position, iteration goes on
+            runs += 1
+            note('imap cs=1 with failing inputs' if failing else 'imap cs=1 (picky, no failing input)')
+            it = pool.imap(picky, ys)
+            seen = []
+            try:
+                while len(seen) <= len(ys) + 1:
+                    try:
+                        seen.append(['yield', it.next(timeout=60)])
+                    except StopIteration:
+                        seen.append(['stop'])
+                        break
+                    except BTimeoutError:
+                        seen.append(['timeout'])
+                        break
+                    except Exception as exc:
+                        einfo = exc.args[0] if exc.args else None
+                        inner = getattr(einfo, 'exception', None)
+                        inner = getattr(inner, 'exc', inner)      # unwrapped by the pickle round trip
+                        seen.append(['raise', list(getattr(inner, 'args', ()))])
+                        obs.add('imap next() raises Exception(<%s>) whose .exception is the original %s with __cause__ %s'
+                                % (type(einfo).__name__, type(inner).__name__, type(getattr(inner, '__cause__', None)).__name__))
+            except Exception as exc:
+                seen.append(['crash', repr(exc)])
+            want = [['raise', ['bad input', y]] if y % 10 == 7 else ['yield', y + 1] for y in ys] + [['stop']]
+            if seen != want:
+                flag('C02:pool-imap-error-position', 'imap(picky, %s) consumer saw %s, sequential: %s' % (ys, seen, want), ecase)
+            # imap chunksize > 1 with failing inputs (known finding: the generator ends at the error)
+            if failing:
+                runs += 1
+                note('imap cs>1 with failing inputs')
+                gen = pool.imap(picky, ys, chunksize=2)
+                seen = []
+                while len(seen) <= len(ys) + 1:
+                    try:
+                        seen.append(['yield', next(gen)])
+                    except StopIteration:
+                        seen.append(['stop'])
+                        break
+                    except Exception as exc:
+                        einfo = exc.args[0] if exc.args else None
+                        inner = getattr(einfo, 'exception', None)
+                        inner = getattr(inner, 'exc', inner)
+                        seen.append(['raise', list(getattr(inner, 'args', ()))])
+                nvals = sum(1 for x in seen if x[0] == 'yield')
+                if nvals != len(ys) - len(failing):
+                    flag('C02:imap-chunked-error-ends-iteration',
+                         'real Pool(%d).imap(picky, %s, chunksize=2): consumer saw %s -- %d of the %d computable values'
+                         % (psize, ys, seen, nvals, len(ys) - len(failing)), ecase)
+        pool.close()
+        for pid in pids + [p.pid for p in pool._pool]:
+            try:
+                os.kill(pid, signal.SIGKILL)
+            except OSError:
+                pass
+    print(json.dumps(dict(runs=runs, bad=bad, summary=summary, observations=sorted(obs))))
+    sys.stdout.flush()
+    os._exit(0)
+
+
+RUNNERS = dict(chunks=run_chunks, star=run_star, **{'async': run_async}, map=run_map, imap=run_imap,
                flat=run_flat, apply=run_apply)
 
 if __name__ == '__main__':
     cases = json.load(sys.stdin)
+    if isinstance(cases, dict) and cases.get('mode') == 'pool':
+        run_pool(cases)
     print(json.dumps([RUNNERS[c['t']](c) for c in cases]))
